@@ -200,6 +200,32 @@ fn grid(ctx: &Ctx, rep: &mut Report) {
             }
         }
     }
+    // declared totals that ask for as many seek points as a SEEKTABLE can hold (932067), one less, one more
+    let mut lidx = 0u64;
+    for total_frames in [14_913_055u64, 14_913_056, 14_913_071, 14_913_072, 14_913_073, 14_913_088, 30_000_000, 1 << 33] {
+        for front in [Front::Sample, Front::ByteLE, Front::Channel] {
+            lidx += 1;
+            if !ctx.mine(lidx) {
+                continue;
+            }
+            rep.eval();
+            rep.count("grid_point", "seek-table-capacity");
+            let r = mon::guard(|| {
+                let mut c = Cursor::new(Vec::new());
+                let o = Options::default().block_size(16).map_err(|e| crate::api::show(&e))?.seektable_frames(1);
+                match front {
+                    Front::Sample => FlacSampleWriter::new(&mut c, o, 44100, 16, 1, Some(total_frames)).map(|_| ()).map_err(|e| crate::api::show(&e)),
+                    Front::Channel => FlacChannelWriter::new(&mut c, o, 44100, 16, 1, Some(total_frames)).map(|_| ()).map_err(|e| crate::api::show(&e)),
+                    _ => FlacByteWriter::endian(&mut c, flac_codec::byteorder::LittleEndian, o, 44100, 16, 1, Some(total_frames * 2)).map(|_| ()).map_err(|e| crate::api::show(&e)),
+                }
+            });
+            match r {
+                Err(p) => rep.violation("panic", format!("constructor:{}", p.signature()), format!("declared total {total_frames} with block size 16 and a seek point per frame, {front:?}: {}", p.msg), J::obj().set("total", total_frames).set("front", format!("{front:?}"))),
+                Ok(Err(e)) => rep.violation("legal-refused", format!("legal-refused:{}", crate::api::err_name(&e)), format!("documented-legal parameters refused (declared total {total_frames}, block 16, seek point per frame): {e}"), J::obj().set("total", total_frames)),
+                Ok(Ok(())) => rep.count("constructor_outcome", "ok"),
+            }
+        }
+    }
     // stream writer parameters
     let mut sidx = 0u64;
     for bps in DEPTHS {
